@@ -25,6 +25,9 @@ CLAIMS = {
  'C01': ('model_checking',
    "TLA+ spec BuilderConfig (configuration space of MessageBuilder, validity oracle, expected packet nesting, boundary payload sizes) drives the check: TLC emits every configuration within two dimensions of the base (all 2-way value pairs) with its boundary sizes and sweep configurations run over every payload length around the partial-body / AEAD-chunk / 8 KiB buffer edges; the layer machines Framing, AeadStream, CfbMdc and Stages are model-checked in the same run. Each (configuration, size) is built with the real builder, deframed independently (nesting + legality) and read back through every opener (session key, each password, each recipient key); payload, metadata and every signature must come back.",
    'DESIGN.md 5/C01', TECH),
+ 'C16': ('model_checking',
+   "TLA+ spec Cleartext (dash escaping, body framing, the reader's termination rule, unescape+trim, the RFC signed form, signer/verifier hashing) is model-checked over every text of <=6 (thorough 7) symbols over {dash, space, tab, CR, LF, other} with a sensitivity run (signer that does not trim => SignerVerifierAgree violated); TLC emits every text <=5 (thorough 6) with escaped form, signed form and representability; the harness signs each with v4/v6 keys through sign/new/new_many, checks text()/signed_text()/verify in memory and after the armored round trip, checks the emitted body cannot terminate early, swaps in every single-symbol neighbour (verification must fail exactly when the signed form differs), and runs a header matrix.",
+   'DESIGN.md 5/C16', TECH),
 }
 checks = []
 for p in props:
